@@ -59,6 +59,12 @@ def cases(tier, seed):
     out.append({"id": "flat-N3-rotate-none-midpath", "kind": "coll", "tree": "flat", "N": 3, "op": "rotate-none", "target": "root", "weight": 5,
                 "combos": [[2, 0], [2, 1], [2, -3], [None, 1]]})
     out.append({"id": "nested-N3-move-midpath", "kind": "coll", "tree": "nested", "N": 3, "op": "move", "target": "root", "weight": 3, "combos": [[2, 0], [2, -3]]})
+    # two-step histories: the first child was given the collection's own position array (child.position = coll.position, a view of the
+    # collection's path), then the collection is operated on
+    for N in Ns:
+        for op in ("move", "rotate-0", "position="):
+            out.append({"id": f"flat-N{N}-{op}-after-kidpos-assign", "kind": "coll", "tree": "flat", "N": N, "op": op, "target": "root", "weight": 3,
+                        "prelude": "kidpos=ownpos"})
     for N in Ns:
         for op in ("move", "rotate-vec", "position="):
             out.append({"id": f"nested-N{N}-{op}-on-inner", "kind": "coll", "tree": "nested", "N": N, "op": op, "target": "I", "weight": 3})
@@ -125,6 +131,14 @@ def descendants(n):
 
 def find(n, name):
     return next(x for x in all_nodes(n) if x.name == name)
+
+
+def _prelude(spec, target):
+    """history before the operation under test (through the public API); keeps the recorded old poses in step"""
+    if spec.get("prelude") == "kidpos=ownpos":
+        kid = target.kids[0]
+        kid.obj.position = target.obj.position  # the getter hands out a view of the collection's path
+        kid.P = target.P.copy()
 
 
 def rel_pose(Pc, Qc, Pk, Qk, i):
@@ -237,8 +251,9 @@ def run_case(case, info):
         inputs = [x for n in nodes for x in n.inputs]
         qg = [g for n in nodes for g in n.qg]
         tag = f"in={n_in},start={start}"
-        rp = {"kind": "coll", "tree": tree, "N": N, "op": op, "target": case["target"], "n_in": n_in, "start": start}
+        rp = {"kind": "coll", "tree": tree, "N": N, "op": op, "target": case["target"], "n_in": n_in, "start": start, "prelude": case.get("prelude")}
         try:
+            _prelude(case, target)
             u2, in2, qg2, n_anchor = _apply(op, target, N, n_in, start)
         except Exception as e:  # noqa
             C.obligations.append({"name": f"{tag}.returns", "status": "sat", "note": f"raised {type(e).__name__}: {e}"})
@@ -333,6 +348,7 @@ def replay(spec):
         return False, "others unchanged"
     target = root if spec["target"] == "root" else find(root, spec["target"])
     try:
+        _prelude(spec, target)
         _, _, _, n_anchor = _apply(op, target, N, spec["n_in"], spec["start"], symbolic=False, env=env, R=R)
     except Exception as e:  # noqa
         return True, f"{op} on {spec['target']} ({tree}, N={N}, input {spec['n_in']}, start={spec['start']}): valid call raised {type(e).__name__}: {e}"
